@@ -283,7 +283,7 @@ func (w *sshWorld) Reply(n string, addr any, ask bool, payload []byte, timeout t
 	return w.send(n, addr.(sshswarm.Addr), ask, payload, timeout)
 }
 
-func (w *sshWorld) MListen(k, proof string) {
+func (w *sshWorld) MListen(k, proof, extra string) {
 	w.mu.Lock()
 	w.pol = [2]string{k, proof}
 	w.mu.Unlock()
@@ -317,9 +317,11 @@ func (w *sshWorld) MDial(c int, t string) string {
 	return "ok"
 }
 
-func (w *sshWorld) MPresent(c int, k, proof string) string { return "not an atomic world" }
-func (w *sshWorld) MHello(c int, k, proof string) string   { return "not a P2PKE world" }
-func (w *sshWorld) MFinish(c int) string                   { return "not a P2PKE world" }
+func (w *sshWorld) MPresent(c int, k, proof, extra string) string {
+	return "not an atomic world"
+}
+func (w *sshWorld) MHello(c int, k, proof string) string { return "not a P2PKE world" }
+func (w *sshWorld) MFinish(c int) string                 { return "not a P2PKE world" }
 
 func (w *sshWorld) Lookup(n, x, t string, timeout time.Duration) string {
 	ctx, cf := context.WithTimeout(w.ctx, timeout)
